@@ -53,3 +53,45 @@ VH_GROUP(packed_padding)
         ++ctx.witness["packed_pixels_with_unused_bits"];
     }
 }
+
+// Bit-aligned references whose BitField is exactly as wide as the pixel (uint16_t for 5-6-5), at every bit offset 0..7: the library's
+// own images choose a wider bit field, so this state only arises from user-declared reference types.  at_c<K> must address the K-th
+// channel in memory order at bit  offset + sum of the earlier widths, all of its bits; checked against a raw LSB-first bit model for
+// every value of every channel, writing through the reference and reading both the raw bits and the reference back.
+VH_GROUP(ba_exact_bitfield)
+{
+    namespace gil = boost::gil; namespace mp = boost::mp11;
+    using R565 = gil::bit_aligned_pixel_reference<uint16_t, mp::mp_list_c<int, 5, 6, 5>, gil::rgb_layout_t, true>;
+    using B565 = gil::bit_aligned_pixel_reference<uint16_t, mp::mp_list_c<int, 5, 6, 5>, gil::bgr_layout_t, true>;
+    static const int W[3] = {5, 6, 5};
+    auto getbits = [](unsigned char const* b, int pos, int n) { unsigned v = 0; for (int i = 0; i < n; ++i) v |= unsigned((b[(pos + i) / 8] >> ((pos + i) % 8)) & 1) << i; return v; };
+    long fails = 0;
+    auto run = [&](auto tag, const char* name) {
+        using Ref = decltype(tag);
+        for (int off = 0; off < 8; ++off)
+        {
+            if (!ctx.take()) continue;
+            for (int k = 0; k < 3; ++k) for (unsigned v = 0; v < (1u << W[k]); ++v) for (int bg = 0; bg < 2; ++bg)
+            {
+                unsigned char buf[8]; std::memset(buf, bg ? 0xFF : 0x00, sizeof buf);
+                unsigned char before[8]; std::memcpy(before, buf, sizeof buf);
+                Ref r(buf + 1, off);
+                if (k == 0) gil::at_c<0>(r) = v; else if (k == 1) gil::at_c<1>(r) = v; else gil::at_c<2>(r) = v;
+                const int pos = 8 + off + (k > 0 ? W[0] : 0) + (k > 1 ? W[1] : 0);
+                const unsigned raw = getbits(buf, pos, W[k]);
+                const unsigned back = k == 0 ? unsigned(gil::at_c<0>(r)) : k == 1 ? unsigned(gil::at_c<1>(r)) : unsigned(gil::at_c<2>(r));
+                ++ctx.evaluations; ++ctx.nontrivial;
+                const std::string id = vh::S() << "ba_exact_bitfield/" << name << "/offset=" << off << "/at_c<" << k << ">=" << v << "/bg=" << bg;
+                if (raw != v && ++fails <= 64) ctx.fail(id, "at_c-writes-other-bits-than-the-channel", vh::S() << "channel bits hold " << raw);
+                if (back != v && ++fails <= 64) ctx.fail(id, "at_c-readback-differs", vh::S() << "reads " << back);
+                // every bit outside the channel is unchanged
+                bool other = false;
+                for (int bit = 0; bit < 64; ++bit) if (bit < pos || bit >= pos + W[k]) other = other || (((buf[bit / 8] >> (bit % 8)) & 1) != ((before[bit / 8] >> (bit % 8)) & 1));
+                if (other && ++fails <= 64) ctx.fail(id, "other-bits-changed", "");
+            }
+            ++ctx.witness["bit_aligned_reference_with_exact_width_bitfield"];
+        }
+    };
+    run(R565(nullptr, 0), "rgb565/u16");
+    run(B565(nullptr, 0), "bgr565/u16");
+}
